@@ -1,4 +1,5 @@
-"""C34 (Lanczos part) -- Lanczos tridiagonalisation reproduces the operator's spectrum when the order reaches the dimension.
+"""C34 (Lanczos and quadrature parts) -- Lanczos tridiagonalisation reproduces the operator's spectrum and the
+Lanczos quadrature is exact when the order reaches the dimension.
 
 nifty.re.num.lanczos.lanczos_tridiag is traced (jaxpr; fori_loop / cond, full re-orthogonalisation, breakdown test against
 eps) for a symbolic symmetric matrix A and start vector v and interpreted over z3 reals in fork mode (every breakdown
@@ -6,8 +7,13 @@ decision is a path).  On every path without breakdown z3 proves: the basis Q is 
 tridiagonal -- hence T and A have the same eigenvalues (trace and determinant are compared explicitly).  With a breakdown
 in the first step (v an eigenvector) the leading entry of T is that eigenvalue.
 
-The stochastic log-determinant and the ELBO estimators end in LAPACK / ARPACK eigen-solvers (jnp.linalg.eigh,
-scipy.sparse.linalg.eigsh) for which no closed contract exists: they are outside the claim."""
+quadrature: stochastic_logdet_from_lanczos (the quadrature behind the stochastic trace / log-determinant estimators) is
+traced with the LAPACK eigen-solver replaced by the closed-form 2x2 symmetric eigendecomposition; for a symbolic positive
+definite tridiagonal T it equals n (T^m)[0,0] for the monomials m = 0..3 = 2n-1: Gauss quadrature of order n = dimension is
+exact, so together with T = Q A Q^T the estimator of one probe v is n v^T f(A) v / |v|^2 for every f on the spectrum.
+
+The ELBO estimators (nifty.re and nifty.cl estimate_evidence_lower_bound: ARPACK eigsh on implicit metrics, hundreds of
+lines of host code) are outside the claim."""
 import numpy as np
 
 from .. import symcore as sc
@@ -58,27 +64,48 @@ def h_tridiag(B, n):
             B.eq("no breakdown: det(T) == det(A) (same eigenvalues)", [T[0, 0] * T[1, 1] - T[0, 1] * T[1, 0]], [A[0, 0] * A[1, 1] - A[0, 1] * A[1, 0]])
 
 
+def h_quadrature(B):
+    """Gauss quadrature from the tridiagonal is exact up to degree 2 n - 1 (n = 2): for the monomials x^m, m = 0..3, the
+    estimator stochastic_logdet_from_lanczos(T, n, func) equals n * (T^m)[0,0] -- hence, with T = Q A Q^T and q0 = v/|v|
+    (tridiag harness), n * v^T A^m v / |v|^2, and by interpolation on the spectrum n * v^T f(A) v / |v|^2 for EVERY f."""
+    import importlib
+    lz = importlib.import_module("nifty.re.num.lanczos")
+    a, c, b = B.reals("a", ()), B.reals("c", ()), B.reals("b", ())
+    lo = 1e-3
+    B.assume(b > 0)                                   # no breakdown: the off-diagonal is a norm
+    B.assume((a - lo) > 0)
+    B.assume((a - lo) * (c - lo) - b * b > 0)          # spectrum above the discard threshold
+    T = np.array([[a, b], [b, c]], dtype=object if B.mode == "sym" else np.float64)
+    Tm = [np.eye(2, dtype=object), T, T @ T, T @ T @ T]
+    for m in range(4):
+        def run(T, m=m):
+            return lz.stochastic_logdet_from_lanczos(T[None], 2, func=(lambda x: x ** m) if m else (lambda x: x ** 0))
+        est = jcall(B, run, T, fork=True)
+        B.eq(f"quadrature of x^{m} == n (T^{m})[0,0]", [np.asarray(est, dtype=object).reshape(-1)[0]], [2 * Tm[m][0, 0]])
+
+
 def scenarios(tier, seed):
-    quick = [("tridiag", {"n": 2})]
+    quick = [("tridiag", {"n": 2}), ("quadrature", {})]
     thorough = [("tridiag", {"n": 3})]
     return quick if tier == "quick" else quick + thorough
 
 
-HARNESSES = {"tridiag": h_tridiag}
+HARNESSES = {"tridiag": h_tridiag, "quadrature": h_quadrature}
 OPTS = {"quick": {"max_paths": 100, "budget_s": 600, "jobs": 4, "branch_timeout_ms": 30000, "obl_timeout_ms": 120000},
         "thorough": {"max_paths": 400, "budget_s": 2400, "jobs": 4, "branch_timeout_ms": 60000, "obl_timeout_ms": 300000}}
 
 META = {
     "level": "other",
-    "explanation": "lanczos_tridiag traced for a symbolic symmetric 2x2 (thorough 3x3) matrix and start vector, order = dimension, "
+    "explanation": "stochastic_logdet_from_lanczos with the 2x2 closed-form eigendecomposition: quadrature of x^m equals n (T^m)[0,0] for "
+                   "m = 0..3 (Gauss quadrature exact to degree 2n-1) for ALL positive definite tridiagonal T.  lanczos_tridiag traced for a symbolic symmetric 2x2 (thorough 3x3) matrix and start vector, order = dimension, "
                    "interpreted in fork mode (breakdown decisions are paths): T symmetric tridiagonal, first basis vector normalised, "
                    "T[0,0] the Rayleigh quotient; without breakdown Q orthonormal, T = Q A Q^T, trace and determinant of T equal those "
-                   "of A (same spectrum).  Only the Lanczos part of the property is claimed.",
-    "functions_encoded": ["nifty.re.num.lanczos.{lanczos_tridiag,_lanczos_tridiag,_dense_tridiag}"],
+                   "of A (same spectrum).  The ELBO clauses of the property are NOT claimed.",
+    "functions_encoded": ["nifty.re.num.lanczos.{lanczos_tridiag,_lanczos_tridiag,_dense_tridiag,stochastic_logdet_from_lanczos,_gauss_unit,"
+                          "_quadrature_from_eigh,_apply_f_safely}"],
     "bounds": {"dimension": "2 (3 thorough)", "order": "= dimension"},
-    "stubs": [],
-    "outside": ["stochastic_lq_logdet / _slq_gauss_radau and both estimate_evidence_lower_bound implementations: they end in "
-                "jnp.linalg.eigh / scipy eigsh (LAPACK / ARPACK kernels without a closed contract); the ELBO statements of the property "
-                "are NOT covered", "order < dimension (extreme eigenvalues only approximately)", "round-off and loss of orthogonality"],
-    "assumptions": ["|v|^2 > 1e-6"],
+    "stubs": ["jnp.linalg.eigh (LAPACK) = closed-form symmetric 2x2 eigendecomposition (ascending eigenvalues, orthonormal vectors)"],
+    "outside": ["both estimate_evidence_lower_bound implementations (ARPACK eigsh, host code): the ELBO statements of the property are NOT covered",
+                "the Gauss-Radau variant with a prescribed node (_radau_unit) and the probe averaging of stochastic_lq_logdet", "order < dimension (extreme eigenvalues only approximately)", "round-off and loss of orthogonality"],
+    "assumptions": ["|v|^2 > 1e-6", "quadrature: spectrum of T above 1e-3 (the estimator discards eigenvalues below its tolerance by design), off-diagonal > 0"],
 }
